@@ -4,6 +4,7 @@
 -/
 import PgProofs.TypingAccepts
 import PgProofs.TypingPyEq
+import PgProofs.TypingDict
 namespace Pg.Typing
 
 /-- `issubclass` is transitive (true of Python classes; a hypothesis on the class environment). -/
@@ -19,7 +20,10 @@ mutual
   * `Str`: the receiver has no regex or the same one (regexes are outside the claim);
   * `Enum`/`Enum`: same candidate value type (F41);
   * `List`/`List`: the receiver's `min_size` is not larger (F09b);
-  * `Dict`-with-schema and `Union` receivers: see `CompatOkFields` / below. -/
+  * `Dict` with schema on both sides: constant, distinct keys only (dynamic keys dispatch by
+    declaration order, see `C04_compat_counterexample_keyorder`), and a shared field of the other
+    side has no default (F42);
+  * `Union` receivers are outside the class (F43). -/
   def CompatOk : Spec → Spec → Bool
     | .any f, b => !f.frozen && f.noneable && !b.flags.frozen
     | .bool f, b => !f.frozen && !b.flags.frozen
@@ -44,10 +48,15 @@ mutual
            else if fixedLen omn omx then headOkAll es oes
            else headOk es oes
          | _ => true)
-    | .dict _ f, b => !f.frozen && !b.flags.frozen &&
-        (match b with
-         | .dict (some _) _ => false
-         | _ => true)
+    | .dict fields f, b => !f.frozen && !b.flags.frozen &&
+        (match fields with
+         | none => true
+         | some fs =>
+           match b with
+           | .dict (some ofs) _ =>
+             constOnly fs && constOnly ofs && distinctStrs (constKeys fs) &&
+               distinctStrs (constKeys ofs) && fieldsOk fs ofs
+           | _ => true)
     | .obj _ f, b => !f.frozen && !b.flags.frozen
     | .union _ _, _ => false
   termination_by structural a => a
@@ -63,6 +72,14 @@ mutual
   def headOk : List Spec → List Spec → Bool
     | e :: _, oe :: _ => CompatOk e oe
     | _, _ => true
+  termination_by structural a => a
+  /-- Shared fields: hereditary `CompatOk`, and the other side's field has no default (F42). -/
+  def fieldsOk : List Field → List Field → Bool
+    | [], _ => true
+    | .mk k s :: rest, ofs =>
+      (match findField ofs k with
+       | none => true
+       | some os => CompatOk s os && os.flags.default.isMissing) && fieldsOk rest ofs
   termination_by structural a => a
 end
 
@@ -228,28 +245,52 @@ theorem compat_enum (env : Env) (ht : SubTrans env) (vals : List Val) (f : Flags
     exact pyIn_trans v' ovals vals hc.2 hv
 
 
-theorem compat_dict (env : Env) (ht : SubTrans env) (fields : Option (List Field)) (f : Flags) (b : Spec)
-    (hok : CompatOk (.dict fields f) b = true) (hc : isCompatible env (.dict fields f) b = true) (v : Val)
-    (hv : accepts env b v = true) : accepts env (.dict fields f) v = true := by
-  cases fields with
-  | some fs =>
-    cases b <;> simp only [isCompatible, Bool.false_eq_true] at hc
-    rename_i ofields g
-    cases ofields with
-    | some ofs => simp [CompatOk] at hok
-    | none => simp at hc
+theorem compat_dictNone (env : Env) (f : Flags) (b : Spec)
+    (hok : CompatOk (.dict none f) b = true) (hc : isCompatible env (.dict none f) b = true) (v : Val)
+    (hv : accepts env b v = true) : accepts env (.dict none f) v = true := by
+  cases b <;> simp only [isCompatible, Bool.false_eq_true] at hc
+  rename_i ofields g
+  simp only [CompatOk, Spec.flags, Bool.and_eq_true, Bool.not_eq_true'] at hok
+  rw [Bool.and_eq_true] at hc
+  rw [accepts_dictNone env f hok.1.1]
+  cases ofields with
   | none =>
-    cases b <;> simp only [isCompatible, Bool.false_eq_true] at hc
-    rename_i ofields g
-    cases ofields with
-    | some ofs => simp [CompatOk] at hok
+    rw [accepts_dictNone env g hok.1.2] at hv
+    cases v <;> simp only [Bool.false_eq_true] at hv ⊢
+    exact noneable_mono hc.1 hv
+  | some ofs =>
+    rcases accepts_dictSome_shape env ofs g hok.1.2 v hv with ⟨e, hg⟩ | ⟨kvs, e⟩
+    · subst e; exact noneable_mono hc.1 hg
+    · subst e; rfl
+
+theorem CompatOk_flags (a b : Spec) (h : CompatOk a b = true) :
+    a.flags.frozen = false ∧ b.flags.frozen = false := by
+  cases a with
+  | union cands f => simp [CompatOk] at h
+  | any f =>
+    simp only [CompatOk, Bool.and_eq_true, Bool.not_eq_true'] at h
+    exact ⟨h.1.1, h.2⟩
+  | dict fields f =>
+    cases fields with
     | none =>
-      simp only [CompatOk, Spec.flags, Bool.and_eq_true, Bool.not_eq_true'] at hok
-      rw [Bool.and_eq_true] at hc
-      rw [accepts_dictNone env g hok.1.2] at hv
-      rw [accepts_dictNone env f hok.1.1]
-      cases v <;> simp only [Bool.false_eq_true] at hv ⊢
-      exact noneable_mono hc.1 hv
+      rw [CompatOk] at h
+      simp only [Bool.and_eq_true, Bool.not_eq_true'] at h
+      exact h.1
+    | some fs =>
+      cases b with
+      | dict ofields g =>
+        cases ofields <;> rw [CompatOk] at h <;>
+          first
+          | (intro _ _ e; cases e)
+          | (simp only [Bool.and_eq_true, Bool.not_eq_true'] at h; exact h.1)
+      | _ =>
+        rw [CompatOk] at h <;>
+          first
+          | (intro _ _ e; cases e)
+          | (simp only [Bool.and_eq_true, Bool.not_eq_true'] at h; exact h.1)
+  | _ =>
+    simp only [CompatOk, Bool.and_eq_true, Bool.not_eq_true'] at h
+    first | exact h | exact h.1
 
 theorem compat_obj (env : Env) (ht : SubTrans env) (c : Nat) (f : Flags) (b : Spec)
     (hok : CompatOk (.obj c f) b = true) (hc : isCompatible env (.obj c f) b = true) (v : Val)
@@ -358,7 +399,27 @@ mutual
                 have := hc.1.2
                 simp only [decide_eq_true_eq] at this hs ⊢
                 omega
-    | dict fields f => exact compat_dict env ht fields f b hok hc v hv
+    | dict fields f =>
+      cases fields with
+      | none => exact compat_dictNone env f b hok hc v hv
+      | some fs =>
+        cases b <;> simp only [isCompatible, Bool.false_eq_true] at hc
+        rename_i ofields g
+        cases ofields with
+        | none => simp at hc
+        | some ofs =>
+          simp only [CompatOk, Spec.flags, Bool.and_eq_true, Bool.not_eq_true'] at hok
+          obtain ⟨⟨hf, hg⟩, ⟨⟨⟨hcf, hcof⟩, hdf⟩, hdof⟩, hfo⟩ := hok
+          simp only [Bool.and_eq_true] at hc
+          obtain ⟨hn, hkeys, hfc⟩ := hc
+          rw [accepts_dictSome env ofs g hg hcof hdof] at hv
+          rw [accepts_dictSome env fs f hf hcf hdf]
+          cases v <;> simp only [Bool.false_eq_true] at hv ⊢
+          · exact noneable_mono hn hv
+          · rename_i kvs
+            rw [Bool.and_eq_true] at hv ⊢
+            exact ⟨unmatched_mono env fs ofs hcf hcof hkeys kvs hv.1,
+              fields_sound env ht fs ofs hfo hfc hcf kvs hv.2⟩
     | obj c f => exact compat_obj env ht c f b hok hc v hv
     | union cands f => simp [CompatOk] at hok
   termination_by structural a
@@ -416,6 +477,39 @@ mutual
         intro x hx
         exact compat_sound env ht e o hok hc x (hv x hx)
   termination_by structural es
+  theorem fields_sound (env : Env) (ht : SubTrans env) (fs ofs : List Field)
+      (hok : fieldsOk fs ofs = true) (hc : fieldsCompat env fs ofs = true) (hco : constOnly fs = true)
+      (kvs : List (String × Val)) (hall : fieldsAll env ofs kvs = true) :
+      fieldsAll env fs kvs = true := by
+    cases fs with
+    | nil => rfl
+    | cons fld rest =>
+      cases fld with
+      | mk ks s =>
+        cases ks with
+        | strKey r => simp [constOnly] at hco
+        | const k =>
+          simp only [constOnly] at hco
+          simp only [fieldsOk, fieldsCompat, Bool.and_eq_true] at hok hc
+          simp only [fieldsAll, Bool.and_eq_true]
+          refine ⟨?_, fields_sound env ht rest ofs hok.2 hc.2 hco kvs hall⟩
+          cases hfind : findField ofs (.const k) with
+          | none => simp [hfind] at hc
+          | some os =>
+            simp only [hfind, Bool.and_eq_true] at hok hc
+            have hacc := fieldsAll_find env ofs kvs k os hall hfind
+            have hdm : os.flags.default = .missing := by
+              have := hok.1.2
+              cases hd : os.flags.default <;> simp [hd, Val.isMissing] at this
+              rfl
+            rw [hdm] at hacc
+            have hnm : (valueOrDefault kvs k .missing).isMissing = false := by
+              cases hx : valueOrDefault kvs k .missing <;> simp [Val.isMissing]
+              rw [hx, accepts_missing env os (CompatOk_flags s os hok.1.1).2] at hacc
+              cases hacc
+            rw [valueOrDefault_missing kvs k s.flags.default hnm]
+            exact compat_sound env ht s os hok.1.1 hc.1 _ hacc
+  termination_by structural fs
 end
 
 end Pg.Typing
